@@ -595,8 +595,16 @@ func TestC04(t *testing.T) {
 			}
 		}
 	})
+	// the hierarchical contexts: what a code means (a group or not) in a message of a child
+	// application is decided through its parent applications, loaded before or after it
+	ctxsB := append([]*lib.Ctx{}, ctxs...)
+	for _, x := range contexts(t) {
+		if x.Name == "base+hier" || x.Name == "base+hier-parents-loaded-late" {
+			ctxsB = append(ctxsB, x)
+		}
+	}
 	rec.Suite("bodies", n, func(c *ev.Case) {
-		ctx := ctxs[c.I%2]
+		ctx := ctxsB[c.I%len(ctxsB)]
 		r := c.R
 		h, _ := ctx.Header(r, ctx.Cmds)
 		o := optsFor(ctx, h.App)
